@@ -81,25 +81,51 @@ def dec_score(s):
 def make_plugins():
     from batchie.core import Scorer, PlatePolicy
 
+    import inspect
+
+    def bind_to(base_fn, self, args, kwargs, names):
+        """the named arguments of a call, identified through the signature of the plug-in INTERFACE (extra / renamed-by-keyword arguments of a
+        refactored caller do not matter); falls back to keywords, then positions"""
+        try:
+            b = inspect.signature(base_fn).bind(self, *args, **kwargs)
+            return [b.arguments[n] for n in names]
+        except Exception:   # noqa: BLE001
+            pos = {n: i for i, n in enumerate(list(inspect.signature(base_fn).parameters)[1:])}
+            return [kwargs[n] if n in kwargs else args[pos[n]] for n in names]
+
     class VerifTableScorer(Scorer):
-        """returns the prescribed score for every plate it is given (nothing for plates missing from the table)"""
+        """returns the prescribed score for every plate it is given (nothing for plates missing from the table).
+        Signature-agnostic: `score(self, *args, **kwargs)`; `plates` is found by binding to `Scorer.score`."""
         table = {}
         log = []
         refs = []
+        wrapper_errors = []
 
-        def score(self, plates, distance_matrix, samples, rng, progress_bar):
-            VerifTableScorer.log.append([(int(k), np.asarray(v.selection_vector).copy(), type(v).__name__) for k, v in plates.items()])
-            VerifTableScorer.refs.append([(int(k), v, np.asarray(v.selection_vector).copy()) for k, v in plates.items()])
-            self.calls = getattr(self, "calls", 0) + 1
-            return {k: VerifTableScorer.table[int(k)] for k in plates.keys() if int(k) in VerifTableScorer.table}
+        def score(self, *args, **kwargs):
+            try:
+                (plates,) = bind_to(Scorer.score, self, args, kwargs, ["plates"])
+                VerifTableScorer.log.append([(int(k), np.asarray(v.selection_vector).copy(), type(v).__name__) for k, v in plates.items()])
+                VerifTableScorer.refs.append([(int(k), v, np.asarray(v.selection_vector).copy()) for k, v in plates.items()])
+                self.calls = getattr(self, "calls", 0) + 1
+                return {k: VerifTableScorer.table[int(k)] for k in plates.keys() if int(k) in VerifTableScorer.table}
+            except Exception as e:   # noqa: BLE001
+                VerifTableScorer.wrapper_errors.append("%s: %s" % (type(e).__name__, str(e)[:150]))
+                VerifTableScorer.log.append([])
+                return {}
 
     class VerifAllowedPolicy(PlatePolicy):
         allowed = set()
         log = []
+        wrapper_errors = []
 
-        def filter_eligible_plates(self, batch_plates, unobserved_plates, rng):
-            VerifAllowedPolicy.log.append(([int(p.plate_id) for p in batch_plates], [int(p.plate_id) for p in unobserved_plates]))
-            return [p for p in unobserved_plates if int(p.plate_id) in VerifAllowedPolicy.allowed]
+        def filter_eligible_plates(self, *args, **kwargs):
+            try:
+                batch_plates, unobserved_plates = bind_to(PlatePolicy.filter_eligible_plates, self, args, kwargs, ["batch_plates", "unobserved_plates"])
+                VerifAllowedPolicy.log.append(([int(p.plate_id) for p in batch_plates], [int(p.plate_id) for p in unobserved_plates]))
+                return [p for p in unobserved_plates if int(p.plate_id) in VerifAllowedPolicy.allowed]
+            except Exception as e:   # noqa: BLE001
+                VerifAllowedPolicy.wrapper_errors.append("%s: %s" % (type(e).__name__, str(e)[:150]))
+                return []
 
     return VerifTableScorer, VerifAllowedPolicy
 
@@ -146,6 +172,26 @@ class verbose_slice:
         r = self.cm.__exit__(*a)
         quiet_logging()
         return r
+
+
+def raised_by_harness(e):
+    """True when the innermost frame of the exception is harness code (a plug-in / recording wrapper of ours)"""
+    import traceback
+    tb = traceback.extract_tb(e.__traceback__)
+    return bool(tb) and os.path.abspath(tb[-1].filename).startswith(os.path.join(common.VERIF, "harness"))
+
+
+def wrapper_trouble(res, case):
+    """recording failures of the plug-ins since the last call: a broken tie; True when there were any (the oracles of that case are skipped)"""
+    Scorer, Policy = plugins()
+    errs = Scorer.wrapper_errors + Policy.wrapper_errors
+    if not errs:
+        return False
+    res.count("wrapper.unexpected-call", len(errs))
+    res.disagree("C06:wrapper:plugin-call", {k: v for k, v in dict(case).items() if k not in ("raw", "thetas")}, errs[0],
+                 "the call shape the harness plug-ins know")
+    del Scorer.wrapper_errors[:], Policy.wrapper_errors[:]
+    return True
 
 
 class Demote:
@@ -481,6 +527,12 @@ def run_case(ctx, res, env, case, lines, expect, meta, light=False):
                                                  signature="C06:saveload")
             holders.append(h2)
             files.append(fn)
+        if wrapper_trouble(res, dict(case, n=n)):
+            return cands          # the plug-in could not record: nothing of this case can be attributed to the implementation
+        if failed is not None and raised_by_harness(failed):
+            res.count("wrapper.unexpected-call")
+            res.disagree("C06:wrapper:raised", {k: v for k, v in case.items() if k != "raw"}, "%s: %s" % (type(failed).__name__, failed), "no exception from harness code")
+            return cands
         if failed is not None:
             if batch and not batch_hits and isinstance(failed, ValueError):
                 res.count("score.error.batch-without-plates")
@@ -553,7 +605,7 @@ def run_case(ctx, res, env, case, lines, expect, meta, light=False):
                     except Exception as e:   # noqa: BLE001
                         stext = S.err_tok(e)
                         if total:
-                            res.fail("select_next_plate raised", dict(case, n=n, order=list(order), policy=pol), "%s: %s" % (type(e).__name__, e),
+                            (Demote(res, "raised-in-harness-code") if raised_by_harness(e) else res).fail("select_next_plate raised", dict(case, n=n, order=list(order), policy=pol), "%s: %s" % (type(e).__name__, e),
                                      "a plate or None", signature="C06:select-raises")
                 res.evaluations += 1
                 lines.append("pipeline %s %d %s %s %s %s" % (ids_tok(batch), n, ids_tok(order), ttok, "none" if pol is None else ids_tok(pol), rtok))
@@ -632,7 +684,7 @@ def run_case(ctx, res, env, case, lines, expect, meta, light=False):
         # SizeScorer shared object on temporaries: the score of a plate is the size of THAT plate
         sz = shared("size", SizeScorer)
         for p_ in plates:
-            v_ = sz.score({p_: scr.get_plate(p_)}, None, None, np.random.default_rng(0), False)
+            v_ = sz.score(plates={p_: scr.get_plate(p_)}, distance_matrix=None, samples=None, rng=np.random.default_rng(0), progress_bar=False)
             if float(v_[p_]) != float(sum(1 for q in pids if q == p_)):
                 res.fail("a candidate was not scored on its own experiments: reused SizeScorer on a temporary plate", dict(case, plate=p_), repr(v_),
                          sum(1 for q in pids if q == p_), signature="C06:shipped-total")
@@ -640,10 +692,10 @@ def run_case(ctx, res, env, case, lines, expect, meta, light=False):
         # RandomScorer shared object: seed 5 then seed 6 == fresh with seed 6 (values and generator state)
         rs = shared("random", RandomScorer)
         keys = {p_: None for p_ in plates}
-        rs.score(keys, None, None, np.random.default_rng(5), False)
+        rs.score(plates=keys, distance_matrix=None, samples=None, rng=np.random.default_rng(5), progress_bar=False)
         g1, g2 = np.random.default_rng(6), np.random.default_rng(6)
-        a_ = rs.score(keys, None, None, g1, False)
-        b_ = RandomScorer().score(keys, None, None, g2, False)
+        a_ = rs.score(plates=keys, distance_matrix=None, samples=None, rng=g1, progress_bar=False)
+        b_ = RandomScorer().score(plates=keys, distance_matrix=None, samples=None, rng=g2, progress_bar=False)
         res.count("class.reuse-different-seed.random-scorer")
         if list(a_.items()) != list(b_.items()) or str(g1.bit_generator.state) != str(g2.bit_generator.state):
             res.fail("a RandomScorer object used before with another generator does not score like a fresh one", dict(case), list(a_.items())[:4],
@@ -696,7 +748,7 @@ def run_stale(ctx, res, env, case, scr, batch, table, allowed, n, order, lines, 
             files.append(fn)
             holders.append(ChunkedScoresHolder.load_h5(fn))
     except Exception as e:   # noqa: BLE001
-        res.fail("score_chunk raised on a valid request", dict(case, n=n, stale_batch=old_batch), "%s: %s" % (type(e).__name__, e), "a holder",
+        (Demote(res, "raised-in-harness-code") if raised_by_harness(e) else res).fail("score_chunk raised on a valid request", dict(case, n=n, stale_batch=old_batch), "%s: %s" % (type(e).__name__, e), "a holder",
                  signature="C06:score-raises")
         return
     res.count("stale.runs")
@@ -715,7 +767,7 @@ def run_stale(ctx, res, env, case, scr, batch, table, allowed, n, order, lines, 
             select_oracle(res, case, scr, batch, table, pol, got_id, "select_next_plate on stale score files", extra)
         except Exception as e:   # noqa: BLE001
             stext = S.err_tok(e)
-            res.fail("select_next_plate raised on stale score files", dict(case, **extra), "%s: %s" % (type(e).__name__, e), "a plate or None",
+            (Demote(res, "raised-in-harness-code") if raised_by_harness(e) else res).fail("select_next_plate raised on stale score files", dict(case, **extra), "%s: %s" % (type(e).__name__, e), "a plate or None",
                      signature="C06:select-raises")
         res.evaluations += 1
         lines.append("pipeline2 %s %s %d %s %s %s %s" % (ids_tok(old_batch), ids_tok(batch), n, ids_tok(order), ttok, "none" if pol is None else ids_tok(pol), rtok))
@@ -741,7 +793,7 @@ def run_stale(ctx, res, env, case, scr, batch, table, allowed, n, order, lines, 
                 cl = "ok " + content
             except Exception as e:   # noqa: BLE001
                 cl = S.err_tok(e)
-                res.fail("select_next_plate CLI raised on stale score files", dict(case, via="cli", **extra), "%s: %s" % (type(e).__name__, e),
+                (Demote(res, "raised-in-harness-code") if raised_by_harness(e) else res).fail("select_next_plate CLI raised on stale score files", dict(case, via="cli", **extra), "%s: %s" % (type(e).__name__, e),
                          "a plate id or -1", signature="C06:select-raises")
             res.evaluations += 1
             res.count("stale.cli")
@@ -825,7 +877,7 @@ def run_cli(ctx, res, env, case, scr, raw, batch, table, total, allowed, n, orde
             except Exception as e:   # noqa: BLE001
                 stext = S.err_tok(e)
                 if total:
-                    res.fail("select_next_plate CLI raised", dict(case, n=n, order=list(order), policy=pol, via="cli"),
+                    (Demote(res, "raised-in-harness-code") if raised_by_harness(e) else res).fail("select_next_plate CLI raised", dict(case, n=n, order=list(order), policy=pol, via="cli"),
                              "%s: %s" % (type(e).__name__, e), "a plate id or -1", signature="C06:select-raises")
             text = ctext + " sel=" + stext
         lines.append("pipeline %s %d %s %s %s %s" % (ids_tok(batch), n, ids_tok(order), ttok, "none" if pol is None else ids_tok(pol), rtok))
@@ -1124,8 +1176,8 @@ def dbal_total(ctx, res):
         # reuses its address for the next one); every candidate must get the score a fresh scorer gives to its own subset
         for rep in range(2):
             for p_ in unobs:
-                a_ = sh.score({p_: scr.get_plate(p_)}, dm, th, np.random.default_rng(7), False)
-                b_ = GaussianDBALScorer(max_chunk=2, max_triples=20).score({p_: scr.get_plate(p_)}, dm, th, np.random.default_rng(7), False)
+                a_ = sh.score(plates={p_: scr.get_plate(p_)}, distance_matrix=dm, samples=th, rng=np.random.default_rng(7), progress_bar=False)
+                b_ = GaussianDBALScorer(max_chunk=2, max_triples=20).score(plates={p_: scr.get_plate(p_)}, distance_matrix=dm, samples=th, rng=np.random.default_rng(7), progress_bar=False)
                 res.count("class.identity-cache.temporary-plates")
                 if {int(k): S.bits(float(v)) for k, v in a_.items()} != {int(k): S.bits(float(v)) for k, v in b_.items()}:
                     res.fail("a candidate was not scored on its own experiments: a reused scorer handed a temporary plate returns another result than a "
@@ -1135,10 +1187,10 @@ def dbal_total(ctx, res):
         # state must be those of a fresh object called with seed 2
         if unobs:
             plates_ = {p_: scr.get_plate(p_) for p_ in unobs}
-            sh.score(dict(plates_), dm, th, c05.RecRng(1), False)
+            sh.score(plates=dict(plates_), distance_matrix=dm, samples=th, rng=c05.RecRng(1), progress_bar=False)
             r1, r2 = c05.RecRng(2), c05.RecRng(2)
-            a_ = sh.score(dict(plates_), dm, th, r1, False)
-            b_ = GaussianDBALScorer(max_chunk=2, max_triples=20).score(dict(plates_), dm, th, r2, False)
+            a_ = sh.score(plates=dict(plates_), distance_matrix=dm, samples=th, rng=r1, progress_bar=False)
+            b_ = GaussianDBALScorer(max_chunk=2, max_triples=20).score(plates=dict(plates_), distance_matrix=dm, samples=th, rng=r2, progress_bar=False)
             res.count("class.reuse-different-seed.dbal-scorer")
             same = ({int(k): S.bits(float(v)) for k, v in a_.items()} == {int(k): S.bits(float(v)) for k, v in b_.items()} and r1.calls == r2.calls
                     and str(r1.g.bit_generator.state) == str(r2.g.bit_generator.state))
@@ -1357,7 +1409,7 @@ def pipeline_stream(ctx, res):
         try:
             line, o = pipe_eval(case)
         except Exception as e:   # noqa: BLE001
-            res.fail("the scoring pipeline raised on a valid screen / samples", {k: v for k, v in case.items()}, "%s: %s" % (type(e).__name__, e),
+            (Demote(res, "raised-in-harness-code") if raised_by_harness(e) else res).fail("the scoring pipeline raised on a valid screen / samples", {k: v for k, v in case.items()}, "%s: %s" % (type(e).__name__, e),
                      "distance matrix, scores, selection", signature="C06:pipe-raises")
             continue
         res.evaluations += 1
